@@ -43,6 +43,26 @@ var (
 	errDeleteTimeout                    = errors.New("delete timeout")
 )
 
+// onDeleteError is an error of a user provided onDelete handler.
+// It is a distinct type, s.t. whatever the handler's error wraps (e.g. datastore.ErrNotFound)
+// is never mistaken for the header itself being missing.
+type onDeleteError struct {
+	height uint64
+	err    error
+}
+
+func (e *onDeleteError) Error() string {
+	return fmt.Sprintf("on delete handler for %d: %s", e.height, e.err)
+}
+
+func (e *onDeleteError) Unwrap() error { return e.err }
+
+// isMissingHeader reports whether deleteSingle failed because there is no header to delete.
+func isMissingHeader(err error) bool {
+	var handlerErr *onDeleteError
+	return errors.Is(err, datastore.ErrNotFound) && !errors.As(err, &handlerErr)
+}
+
 // deleteSingle deletes a single header from the store,
 // its caches and indexies, notifying any registered onDelete handlers.
 func (s *Store[H]) deleteSingle(
@@ -68,7 +88,7 @@ func (s *Store[H]) deleteSingle(
 
 	for _, deleteFn := range onDelete {
 		if err := deleteFn(ctx, height); err != nil {
-			return fmt.Errorf("on delete handler for %d: %w", height, err)
+			return &onDeleteError{height: height, err: err}
 		}
 	}
 
@@ -108,7 +128,7 @@ func (s *Store[H]) deleteSequential(
 
 	for height := from; height < to; height++ {
 		err := s.deleteSingle(ctx, height, onDelete)
-		if errors.Is(err, datastore.ErrNotFound) {
+		if isMissingHeader(err) {
 			missing++
 			log.Debugw("attempt to delete header that's not found", "height", height)
 		} else if err != nil {
@@ -173,7 +193,7 @@ func (s *Store[H]) deleteParallel(ctx context.Context, from, to uint64) (uint64,
 		for height := range jobCh {
 			last.height = height
 			last.err = s.deleteSingle(workerCtx, height, onDelete)
-			if errors.Is(last.err, datastore.ErrNotFound) {
+			if isMissingHeader(last.err) {
 				last.missing++
 				log.Debugw("attempt to delete header that's not found", "height", height)
 				// a missing header is not a failure, don't report it as the worker's result
